@@ -151,3 +151,15 @@ Theorem C15_command_ignores_global : forall cmd args l1 l2 sw v,
   command_of cmd args (l1 ++ (sw, v) :: l2) = command_of cmd args (l1 ++ l2).
 Proof. exact command_of_ignores_global. Qed.
 Print Assumptions C15_command_ignores_global.
+
+(* (g) the whole binary as one function (Model/Whole.v: config.Load, argument parsing, dispatch,
+   command): a process-level step that passes the correspondence's command-line check is one
+   invocation of it -- the model step it is compared with is [run_binary] on the step's own
+   command line, fault plan and iteration oracle, in the configuration config.Load yields *)
+From LC Require Import Model.Whole Proofs.WholeP.
+Theorem C15_whole_step : forall c w s a argv,
+  LC.s_argv s = a :: argv -> LC.argv_ok c w s = true ->
+  run_binary (a :: argv) (e_fault (LC.s_env s)) (e_order (LC.s_env s)) (LC.s_users s) (LC.world_of w)
+  = Some (c, LC.s_env s, LC.s_cmd s, run (LC.s_env s) c (LC.s_users s) (LC.s_cmd s) (LC.world_of w)).
+Proof. exact whole_step. Qed.
+Print Assumptions C15_whole_step.
